@@ -22,6 +22,32 @@ import (
 // EntryFunc is the message-handling entry point of displayrtcm3 and rtcmfilter.
 type EntryFunc func(startTime time.Time, reader io.Reader, writer io.Writer, config *jsonconfig.Config)
 
+// diskProbes records what the simulated disk did in a run.
+func diskProbes(o *hx.Outcome, d *env.Disk) {
+	if !rt.DiskSeamPresent.Load() {
+		return
+	}
+	o.ProbeN("disk-writes", d.Writes)
+	if d.SlowN > 0 {
+		o.Fault("disk:slow-write")
+		o.ProbeN("disk-slow-writes", d.SlowN)
+	}
+	if d.Errors > 0 {
+		switch d.ErrMode {
+		case env.DiskTransient:
+			o.Fault("disk:transient-io-error")
+		case env.DiskFull:
+			o.Fault("disk:full")
+		case env.DiskFullThenFreed:
+			o.Fault("disk:full-then-freed")
+		}
+		o.ProbeN("disk-write-errors", d.Errors)
+	}
+	if d.Shorts > 0 {
+		o.Fault("disk:short-write")
+	}
+}
+
 func genSink(t *rt.Tape, name string) *env.Sink {
 	lat := []time.Duration{0, 0, time.Millisecond, 7 * time.Millisecond, 50 * time.Millisecond, 3 * time.Second, 2 * time.Minute}[t.SW(40, 20, 20, 10, 10, 3, 2)]
 	return &env.Sink{Name: name, Latency: lat, ExtraYields: t.SW(5, 2, 1, 1) * (1 + t.S(4))}
@@ -125,8 +151,13 @@ func C11(app string, entry EntryFunc, display bool) func(*hx.Ctx) *hx.Outcome {
 			cfg = jsonconfig.Config{DisplayMessages: sw&1 != 0, RecordMessages: sw&2 != 0, MessageLogDirectory: c.TempDir()}
 			o.Probe(fmt.Sprintf("config:display=%v,record=%v", cfg.DisplayMessages, cfg.RecordMessages))
 		}
+		// slow disk under the optional logs (a slow log must not make the output late)
+		disk := env.GenDisk(t, false, ".rtcm", ".txt")
+		rt.SetFileHook(disk.Hook)
+		defer rt.SetFileHook(nil)
+		defer func() { diskProbes(o, disk) }()
 		if c.Detail {
-			o.Sample = map[string]any{"app": app, "display_log": cfg.DisplayMessages, "record_log": cfg.RecordMessages, "segments": gnss.Describe(segs), "wire_len": len(wire), "sink_latency": sink.Latency.String(), "sink_extra_yields": sink.ExtraYields, "max_chunk": src.MaxChunk}
+			o.Sample = map[string]any{"app": app, "log_disk": disk.Describe(), "display_log": cfg.DisplayMessages, "record_log": cfg.RecordMessages, "segments": gnss.Describe(segs), "wire_len": len(wire), "sink_latency": sink.Latency.String(), "sink_extra_yields": sink.ExtraYields, "max_chunk": src.MaxChunk}
 		}
 		if sink.Latency > 0 {
 			o.Fault("sink:latency")
@@ -213,9 +244,14 @@ func C10(entry EntryFunc) func(*hx.Ctx) *hx.Outcome {
 		o.Probe(fmt.Sprintf("config:display=%v,record=%v", cfg.DisplayMessages, cfg.RecordMessages))
 		sink := genSink(t, "out")
 		src := &env.Source{T: t, Data: wire, MaxChunk: []int{1, 16, 512, 4096}[t.S(4)], ZeroReads: t.SBool(1, 5), DataWithErr: t.SBool(1, 3), PauseOneIn: []int{0, 0, 0, 3, 40}[t.S(5)]}
+		// the disk under the optional logs may be slow (no write errors here: the
+		// statement demands complete logs and says nothing about a failing disk)
+		disk := env.GenDisk(t, false, ".rtcm", ".txt")
+		rt.SetFileHook(disk.Hook)
+		defer rt.SetFileHook(nil)
 		if c.Detail {
 			o.Sample = map[string]any{"segments": gnss.Describe(segs), "wire_len": len(wire), "wire_hex": hexShort(wire), "display": cfg.DisplayMessages, "record": cfg.RecordMessages,
-				"clean_stream": clean, "sink_latency": sink.Latency.String(), "sink_extra_yields": sink.ExtraYields, "max_chunk": src.MaxChunk}
+				"clean_stream": clean, "sink_latency": sink.Latency.String(), "sink_extra_yields": sink.ExtraYields, "max_chunk": src.MaxChunk, "log_disk": disk.Describe()}
 		}
 		want, nMsgs, refPanic := validFrames(segs, wire, clean)
 		s := c.NewSim()
@@ -231,6 +267,7 @@ func C10(entry EntryFunc) func(*hx.Ctx) *hx.Outcome {
 			atReturn = len(sink.Buf)
 		})
 		o.Verdict, o.Strategy = verdict, rt.StratNames[s.Strategy]
+		diskProbes(o, disk)
 		if len(s.Panics) > 0 {
 			o.Fail("C10/panic", "%s", firstLine(s.Panics[0]))
 			return o
@@ -410,10 +447,14 @@ func C16(start func(cfg *lcfg.Config)) func(*hx.Ctx) *hx.Outcome {
 		maxChunk := []int{1, 100, 8096, 20000}[t.S(4)]
 		src := &env.Source{T: t, Data: data, MaxChunk: maxChunk, ZeroReads: t.SBool(1, 3), PauseOneIn: []int{0, 0, 0, 3, 40}[t.S(5)]}
 		sink := genSink(t, "stdout")
-		o.ScenHash = gnss.Hash(data) ^ uint64(maxChunk)
+		// the disk under the record file: slow, failing now and then, full, full and freed
+		disk := env.GenDisk(t, true, ".rtcm")
+		rt.SetFileHook(disk.Hook)
+		defer rt.SetFileHook(nil)
+		o.ScenHash = gnss.Hash(data) ^ uint64(maxChunk) ^ uint64(disk.ErrMode)<<20 ^ uint64(disk.Latency)<<24
 		if c.Detail {
 			o.Sample = map[string]any{"input_len": len(data), "input_hex": hexShort(data), "max_chunk": maxChunk, "zero_reads": src.ZeroReads, "log_events": cfg.LogEvents,
-				"stdout_latency": sink.Latency.String(), "stdout_extra_yields": sink.ExtraYields}
+				"stdout_latency": sink.Latency.String(), "stdout_extra_yields": sink.ExtraYields, "record_disk": disk.Describe()}
 		}
 		s := c.NewSim()
 		s.ChooseStrategy()
@@ -433,16 +474,25 @@ func C16(start func(cfg *lcfg.Config)) func(*hx.Ctx) *hx.Outcome {
 		})
 		o.Verdict, o.Strategy = verdict, rt.StratNames[s.Strategy]
 		o.ProbeN("zero-length-reads", src.ZeroN)
+		diskProbes(o, disk)
 		if len(s.Panics) > 0 {
 			o.Fail("C16/panic", "%s", firstLine(s.Panics[0]))
 			return o
 		}
 		if !returned {
-			o.Fail("C16/no-return", "start did not return after end of input (verdict %s, %d steps)", verdict, s.Steps)
+			o.Fail("C16/no-return", "start did not return after end of input (verdict %s, %d steps; record disk %v, %d write errors)", verdict, s.Steps, disk.Describe(), disk.Errors)
 			return o
 		}
 		if d := firstDiff(sink.Buf, data); d >= 0 {
-			o.Fail("C16/stdout-differs", "standard output differs from standard input at offset %d (out %d bytes, in %d)", d, len(sink.Buf), len(data))
+			o.Fail("C16/stdout-differs", "standard output differs from standard input at offset %d (out %d bytes, in %d; record disk %d write errors)", d, len(sink.Buf), len(data), disk.Errors)
+		}
+		if disk.Errors > 0 {
+			// The disk refused part of the record: it cannot be complete, and the
+			// statement does not say what a damaged record must look like.  What it
+			// does say was checked above: recording never alters, delays indefinitely
+			// or truncates the pass-through.
+			o.Nontrivial = len(data) > 0
+			return o
 		}
 		final, nf := readOne(cfg.MessageLogDirectory, "rtcmlogger.", ".rtcm")
 		if nf > 1 || nAtExit > 1 {
